@@ -198,7 +198,7 @@ pub fn gen_history_case(cur: &mut Cursor, bias: Bias, max_ops: usize) -> Value {
     let (p, src) = gen_history_start(cur, bias);
     let n = 1 + cur.below(max_ops);
     let ops: Vec<Value> = (0..n).map(|_| gen_op(cur, bias).to_json()).collect();
-    json!({"fen": p.fen(), "src": src, "ops": ops})
+    crate::common::with_twin(cur, json!({"fen": p.fen(), "src": src, "ops": ops}))
 }
 
 pub fn case_ops(case: &Value) -> Vec<Op> {
